@@ -240,12 +240,20 @@ def gen_hist(ctx):
     r = ctx.rng
     projs = ["+proj=laea +lat_0=50 +lon_0=10 +ellps=WGS84", "+proj=merc +ellps=WGS84"]
     out = []
+    # call histories on ONE object: same size with new values, other sizes, the first size again, same size in another shape;
+    # every result is kept and all are compared again after the last call (aliasing between calls), the caller overwrites its
+    # input buffers after each call and, at the end, the arrays it received
     for i in range(ctx.n(2, 8)):
-        out.append({"what": "kdtree_repeat", "ndata": r.choice([20, 40, 90]), "nx": r.choice([5, 17, 23, 40]), "k": [1, 3][i % 2],
-                    "repeat": 3, "nprocs": r.choice([2, 3]), "chunk": r.choice([None, None, 2]), "kind": KINDS[i % 3],
+        nx, other = r.choice([5, 17, 23, 40]), r.choice([3, 11, 29])
+        plan = [[nx, nx, nx], [nx, other, nx, nx], [nx, nx, other, 0, nx]][i % 3]
+        out.append({"what": "kdtree_repeat", "ndata": r.choice([20, 40, 90]), "nx": nx, "plan": plan, "k": [1, 3][i % 2],
+                    "repeat": len(plan), "nprocs": r.choice([2, 3]), "chunk": r.choice([None, None, 2]), "kind": KINDS[i % 3],
                     "seed": r.randrange(1 << 30)})
     for i in range(ctx.n(2, 6)):
-        out.append({"what": "proj_repeat", "proj": projs[i % 2], "n": r.choice([7, 12, 31]), "repeat": 3, "nprocs": r.choice([2, 3]),
+        a, b = r.choice([(2, 6), (3, 4), (4, 6), (5, 6)])
+        other = r.choice([7, 31])
+        plan = [[[a * b], [a * b], [a, b]], [[a, b], [other], [b, a], [a * b]], [[a * b], [a, b], [other], [0], [a * b]]][i % 3]
+        out.append({"what": "proj_repeat", "proj": projs[i % 2], "n": a * b, "plan": plan, "repeat": len(plan), "nprocs": r.choice([2, 3]),
                     "chunk": r.choice([None, 5]), "kind": KINDS[(i + 1) % 3], "seed": r.randrange(1 << 30)})
     # memory layouts / dtypes of the array arguments: same values, same shape, different strides
     lay = [("F", "F"), ("T", "T"), ("F", "C"), ("C", "T"), ("strided", "strided"), ("negative", "C"), ("offset", "F"), ("C", "C")]
@@ -283,10 +291,20 @@ def run_hist(ctx):
         if not r.get("ok"):
             key = {"neighbour_info": "C15.mp_equals_sp.segments", "proj_layout": "C15.mp_equals_sp.layout.proj",
                    "kdtree_layout": "C15.mp_equals_sp.layout.kdtree"}.get(c["what"], "C15.mp_equals_sp.repeated_call")
-            what = {"kdtree_repeat": "the same cKDTree_MP object queried %d times with %d points each (k=%d): call results equal to "
-                                     "scipy cKDTree.query = %s" % (c.get("repeat", 0), c.get("nx", 0), c.get("k", 0), r.get("calls", r)),
-                    "proj_repeat": "the same Proj_MP object called %d times with %d points each: call results equal to the "
-                                   "single-process projection = %s" % (c.get("repeat", 0), c.get("n", 0), r.get("calls", r)),
+            stage = ""
+            if c["what"] in ("kdtree_repeat", "proj_repeat") and "error" not in r and all(r.get("calls", [False])):
+                if not all(r.get("kept", [True])):
+                    # every call was right when it returned, but an array the caller kept changed under a later call
+                    key = "C15.mp_equals_sp.kept_result"
+                    stage = "; every result was correct when returned, but re-checked after the last call the kept results equal the " \
+                            "single-process ones = %s (a later call overwrote an array handed out earlier)" % r["kept"]
+                elif not r.get("after_scribble", True):
+                    key = "C15.mp_equals_sp.caller_mutation"
+                    stage = "; after the caller overwrote the arrays it had received, the next call is wrong"
+            what = {"kdtree_repeat": "the same cKDTree_MP object queried %d times with %s points (k=%d): call results equal to "
+                                     "scipy cKDTree.query = %s%s" % (c.get("repeat", 0), c.get("plan") or c.get("nx", 0), c.get("k", 0), r.get("calls", r), stage),
+                    "proj_repeat": "the same Proj_MP object called %d times with input shapes %s: call results equal to the "
+                                   "single-process projection = %s%s" % (c.get("repeat", 0), c.get("plan") or c.get("n", 0), r.get("calls", r), stage),
                     "proj_layout": "Proj_MP(%s) on %s coordinate arrays of shape %s with memory layouts %s (inverse=%s) differs from the "
                                    "single-process projection of the same values" % (c.get("proj"), c.get("dtype"), c.get("shape"),
                                                                                      c.get("layout"), c.get("inverse")),
@@ -304,8 +322,9 @@ def run(ctx):
                 "C-integer boundary sizes 2^31-1 .. 2^33+1 at critical-section granularity; nprocs 1..4, workers 1..4, all three kinds, chunk "
                 "None/0/negative/1../n/n+1), exhaustive interleavings of enabled workers for small (n, workers) at action and "
                 "at critical-section granularity, malformed stream (negative n, nprocs 0, unknown kind); each execution is "
-                "replayed in the Coq model; plus call histories with real processes (same cKDTree_MP / Proj_MP object called 3 times "
-                "with equal sizes, kd_tree.get_neighbour_info with nprocs=2 and 3 segments, and the array arguments of Proj_MP / cKDTree_MP in "
+                "replayed in the Coq model; plus call histories with real processes (same cKDTree_MP / Proj_MP object driven through 3-5 calls "
+                "of equal and different sizes/shapes incl. empty, all results kept and re-compared after the last call, caller overwrites "
+                "its input and result arrays, kd_tree.get_neighbour_info with nprocs=2 and 3 segments, and the array arguments of Proj_MP / cKDTree_MP in "
                 "C / Fortran / transposed-view / strided / negative-stride / offset-window layouts, mixed between the two arguments, "
                 "float64 / float32 / int64) against the single-process results. Non-trivial = at least two slices handed out and at least two workers received one "
                 "(or, single worker, at least two slices); distinct = distinct (configuration, executed schedule)")
